@@ -4,6 +4,7 @@
 EXTENDS UnitsAlgebra, TraceIO
 CONSTANT Which    \* "single" | "nested" | "inexact"
 Kid(r, p, e, m) == [ref |-> r, prefix |-> p, exp |-> e, mult |-> m]
+KidF(r, e10) == [ref |-> r, prefix |-> "none", exp |-> 0, mult |-> 0, e10 |-> e10]      \* exponent e10 / 10
 U(n, kids) == [name |-> n, kids |-> kids, imp |-> "none", lib |-> FALSE]
 LibU(n, kids) == [name |-> n, kids |-> kids, imp |-> "none", lib |-> TRUE]
 ImpU(n, ref) == [name |-> n, kids |-> <<>>, imp |-> ref, lib |-> FALSE]
@@ -32,6 +33,13 @@ NestedDefs ==
       \* two children that both reference user-defined, scaled units (in both orders)
       U("kmpms", <<Kid("km", "none", 1, 0), Kid("ms", "none", -1, 0)>>), U("pmskm", <<Kid("ms", "none", -1, 0), Kid("km", "none", 1, 0)>>),
       U("mps", <<Kid("metre", "none", 1, 0), Kid("second", "none", -1, 0)>>), U("mlpkm", <<Kid("ml", "none", 1, 0), Kid("km", "none", -1, 0), Kid("ms", "none", 1, 0)>>),
+      \* a user-defined base unit reached more than once in one reduction (directly, with other exponents, through a nested units)
+      U("ubub", <<Kid("ub", "none", 1, 0), Kid("ub", "none", 1, 0)>>), U("ubsq", <<Kid("ub", "none", 2, 0)>>), U("ub21", <<Kid("ub", "none", 2, 0), Kid("ub", "none", -1, 0)>>),
+      U("ub12", <<Kid("ub", "none", -1, 0), Kid("ub", "none", 2, 0)>>), U("ubdl", <<Kid("ub", "none", 1, 0), Kid("ub", "none", -1, 0)>>),
+      U("ubsub", <<Kid("ubs", "none", 1, 0), Kid("ub", "none", 1, 0)>>), U("ubsqps", <<Kid("ub", "none", 2, 0), Kid("second", "none", -1, 0)>>),
+      \* exponents that are no integers and add up (0.1 + 0.2 - 0.3 = 0, 0.1 + 0.2 = 0.3, 0.5 + 0.5 = 1)
+      U("fr1", <<KidF("metre", 1), KidF("metre", 2), KidF("metre", -3)>>), U("fr2", <<KidF("metre", 1), KidF("metre", 2), Kid("second", "none", 1, 0)>>),
+      U("fr3", <<KidF("metre", 3), Kid("second", "none", 1, 0)>>), U("fr4", <<KidF("ub", 5), KidF("ub", 5)>>), U("fr5", <<KidF("second", 7), KidF("second", -7), Kid("ub", "none", 1, 0)>>),
       U("undef1", <<Kid("nosuch", "none", 1, 0)>>), U("undef2", <<Kid("undef1", "none", 1, 0)>>)>>
 ImportedDefs ==
     <<LibU("ikm", <<Kid("metre", "kilo", 1, 0)>>), LibU("ims", <<Kid("second", "milli", 1, 0)>>), LibU("iub", <<>>),
@@ -58,7 +66,7 @@ Init == red = [n \in Names |-> R(Family, n)] /\ a = "-" /\ b = "-"
 Next == a = "-" /\ \E x, y \in Names : a' = x /\ b' = y /\ UNCHANGED red
 Spec == Init /\ [][Next]_<<red, a, b>>
 Thirds == {Family[i].name : i \in {k \in DOMAIN Family : k <= 12}}
-Cmp(x, y) == red[x].ok /\ red[y].ok /\ red[x].base = red[y].base
+Cmp(x, y) == red[x].ok /\ red[y].ok /\ Total(red[x]) = Total(red[y])
 FLog(x, y) == red[y].log - red[x].log
 Eqv(x, y) == Cmp(x, y) /\ FLog(x, y) = 0
 Laws == a # "-" =>
